@@ -21,22 +21,28 @@ enum Item {
     If(Vec<Item>),
     Times(Vec<Item>),
     Free(Vec<Item>),
+    /// a function definition nested in the body (never called): its own time labels must not leak into the enclosing body
+    Func(u32, Vec<Item>),
+    /// a `const` item between statements
+    ConstItem(u32),
 }
 
 fn gen_items(ch: &mut Chooser, n_items: usize, depth: u32, marker: &mut u32) -> Vec<Item> {
     let mut v = vec![];
     for _ in 0..n_items {
         let mut kinds = vec!["marker", "rel", "abs"];
-        if depth > 0 { kinds.extend(["loop", "if", "times", "free"]); }
+        if depth > 0 { kinds.extend(["loop", "if", "times", "free", "func"]); }
+        kinds.push("const");
         let k = kinds[ch.pick(kinds.len())];
         v.push(match k {
             "marker" => { *marker += 1; Item::Marker(*marker) },
             "rel" => { let (t, n) = [("1", 1), ("0", 0), ("5", 5), ("(2*3)", 6), ("2147483647", 2147483647), ("(1+2)", 3)][ch.pick(6)]; Item::Rel(t, n) },
             "abs" => Item::Abs([5, 0, -1, -5, 10, 2147483647][ch.pick(6)]),
+            "const" => { *marker += 1; Item::ConstItem(*marker) },
             _ => {
                 let n = 1 + ch.pick(3);
                 let inner = gen_items(ch, n, depth - 1, marker);
-                match k { "loop" => Item::Loop(inner), "if" => Item::If(inner), "times" => Item::Times(inner), _ => Item::Free(inner) }
+                match k { "loop" => Item::Loop(inner), "if" => Item::If(inner), "times" => Item::Times(inner), "func" => { *marker += 1; Item::Func(*marker, inner) }, _ => Item::Free(inner) }
             },
         });
     }
@@ -53,6 +59,8 @@ fn render(items: &[Item], out: &mut String) {
             Item::If(b) => { out.push_str("if (A == 0) { "); render(b, out); out.push_str("} "); },
             Item::Times(b) => { out.push_str("times(2) { "); render(b, out); out.push_str("} "); },
             Item::Free(b) => { out.push_str("{ "); render(b, out); out.push_str("} "); },
+            Item::Func(k, b) => { out.push_str(&format!("inline void h{k}() {{ ")); render(b, out); out.push_str("} "); },
+            Item::ConstItem(k) => out.push_str(&format!("const int KK{k} = {k}; ")),
         }
     }
 }
@@ -68,6 +76,7 @@ fn m3(items: &[Item], t: &mut i32, out: &mut Vec<Exp>) {
             Item::Rel(_, n) => *t = ((*t as i64 + *n as i64) as i32), // 32-bit wrap via truncation
             Item::Marker(k) => out.push(Exp::Marker(*k, *t)),
             Item::Free(b) => m3(b, t, out),
+            Item::Func(..) | Item::ConstItem(_) => {},
             Item::Loop(b) => { let t0 = *t; m3(b, t, out); out.push(Exp::BackJmp { time: *t, target_time: t0 }); },
             Item::If(b) => {
                 let t0 = *t;
@@ -360,7 +369,7 @@ pub fn run(tier: &str) -> Report {
     let (max_items, depth, bound) = if thorough { (6, 2, 6) } else { (5, 2, 4) };
     let mut seen = BTreeSet::new();
     for n in 1..=max_items {
-        let stats = explore_dfs(bound, if thorough { 3_000_000 } else { 250_000 }, &|ch| gen_compile_case(ch, n, depth),
+        let stats = explore_dfs(bound, if thorough { 3_000_000 } else { 800_000 }, &|ch| gen_compile_case(ch, n, depth),
             &mut |choices, (body, expected, nontrivial)| { if seen.insert(body.clone()) { work.push(Work::Compile { body, expected, nontrivial, n, depth, choices: choices.to_vec() }); } });
         rep.transitions += stats.runs;
         if stats.capped { rep.cap_hit = Some(format!("generator cap at n={n}")); }
